@@ -294,6 +294,15 @@ fn gen_conditions(ctx: &mut Ctx) -> Result<String, String> {
         let ar = squash(find_fn(&rec, "", "add_records")?.block);
         if !ar.contains("ifrecorder.reloader==reloader{recorder.records.0.extend(deps.iter().cloned());}") { return Err("records::add_records: unexpected body".into()); }
     }
+    // `impl<T: Compound> Compound for Arc<T>`: HOT_RELOADED is T's
+    {
+        let asset_src: String = std::fs::read_to_string(ctx.repo.join("src/asset.rs")).map_err(|e| e.to_string())?.chars().filter(|c| !c.is_whitespace()).collect();
+        let start = asset_src.find("impl<T>CompoundforArc<T>whereT:Compound,{").ok_or("asset.rs: `impl<T> Compound for Arc<T>` not found")?;
+        let body = &asset_src[start..];
+        let end = body.find("impl<T>NotHotReloadedforArc<T>").unwrap_or(body.len().min(600));
+        let inherits = body[..end].contains("constHOT_RELOADED:bool=T::HOT_RELOADED;");
+        out.push_str(&format!("/-- `Arc<T>` is hot-reloaded iff `T` is (`const HOT_RELOADED: bool = T::HOT_RELOADED` in `impl Compound for Arc<T>`) -/\ndef arcInheritsHotReloaded : Bool := {inherits}\n\n"));
+    }
     // Record::insert_*: every insertion is guarded by the identity of the reloader
     {
         let rec = ctx.file("src/hot_reloading/records.rs")?.clone();
